@@ -111,6 +111,25 @@ def handle (ws : List String) : String :=
       | .error _ => "err"
       | .ok rows => "ok " ++ showRows rows
     | _, _ => "bad-op"
+  | ["dec", h] =>
+    match dec h with
+    | some t => match parseDec t with
+      | some d => let n := d.norm; s!"{if n.neg then "-" else "+"} {n.mant} {n.exp}"
+      | none => "err"
+    | none => "bad-op"
+  | "contwrite" :: trail :: toks =>
+    if !isFlag trail then "bad-op" else
+    match toks.mapM dec with
+    | some ts => enc (contRender (flag trail) ts)
+    | none => "bad-op"
+  | ["contread", h] =>
+    match (if h == "=" then some [] else dec h) with
+    | some t => match contRead t with
+      | .ok ws => "ok " ++ " ".intercalate (ws.map (fun w => match parseDec w with
+          | some d => let n := d.norm; s!"{if n.neg then "-" else "+"}{n.mant}e{n.exp}"
+          | none => "?"))
+      | .error _ => "err"
+    | none => "bad-op"
   | "nexmlread" :: chars :: rows =>
     let parseIds := fun (s : String) => if s == "-" then some [] else (s.splitOn ",").mapM String.toNat?
     let parseRow := fun (s : String) =>
@@ -134,6 +153,16 @@ def handle (ws : List String) : String :=
     | some lens =>
       let ids := fun (l : List Nat) => if l.isEmpty then "-" else ",".intercalate (l.map toString)
       " ".intercalate (ids (nexmlChars id lens) :: lens.map (fun n => ids ((nexmlWriteRow id (List.replicate n ())).map (·.1))))
+    | none => "bad-op"
+  | "otus" :: n :: rest =>
+    match n.toNat? with
+    | some n =>
+      match (rest.take n).mapM dec, (rest.drop n).mapM dec with
+      | some ids, some refs =>
+        " ".intercalate (refs.map (fun r => match resolveOtus ids r with
+          | .ok i => toString i
+          | .error _ => "err"))
+      | _, _ => "bad-op"
     | none => "bad-op"
   | "links" :: sbt :: n :: rest =>
     match n.toNat? with
